@@ -22,9 +22,7 @@ CERTS = [
     dict(LOAD="__load__", TICK="__tick__", PRIVATE="__private__", VAR="__variable__", INT="__int__", STORAGE="__storage__"),
     dict(LOAD="init", TICK="loop", PRIVATE="priv", VAR="v", INT="i", STORAGE="stor"),
 ]
-ALL_TAGS = ["neg_after_tight", "parse_pop_lower", "iop_leading_minus", "iop_inject", "inject_reused_temp", "sub_rewrite_fold",
-            "fold_pow_negbase", "pow_nonconst", "opt_final_minus", "opt_final_div", "opt_final_mod",
-            "opt_mid_merge", "opt_swap_self", "opt_merge_self", "const_range", "crash_fold", "fold_float", "fold_nowrap", "fold_huge"]
+ALL_TAGS = ["pow_nonconst", "const_range"]
 
 HEADER = ("From Coq Require Import ZArith String List.\n"
           "From JMCV Require Import MC.Syntax Model.Names Model.Expr Model.ExprSpec Run.C02.\n"
@@ -113,6 +111,13 @@ def gen_cases(rng, tier):
         e = G.random_expr(rng, target, rng.choice([2, 3, 3, 4, 5]), consts, pool)
         form = rng.choice(["", "", "", "+", "-", "*", "/", "%"])
         cases.append(mk_case(e, target, form, rng.choice([0, 0, 1]), rng, rng.choice([0, 1, 2])))
+    # (iv') the fragment of C02_partial: variable-only trees to depth 6, the target in 0..n places, all forms
+    na = 400 if tier == "quick" else 6000
+    for _ in range(na):
+        target = rng.choice(["$x", "$x", "obj:@s"])
+        pool = rng.choice([["$a", "$b", "$c"], ["$a", "$b", target], ["$a", target, target], [target]])
+        e = G.random_arith(rng, rng.choice([2, 3, 4, 5, 6]), pool)
+        cases.append(mk_case(e, target, rng.choice(G.FORMS), rng.choice([0, 0, 1]), rng, rng.choice([0, 1, 2])))
     # (v) adversarial: boundary literals in every position of a binary operation, all forms
     for z in [INT_MIN, INT_MAX, INT_MIN + 1, -1, 0, 1, 65536, 2147483648 // 2]:
         for form in G.FORMS:
@@ -321,14 +326,15 @@ def replay_obj(c, fail, model=None):
 def main(tier: str) -> int:
     ck = Check(PROP, tier)
     ck.cov["trusted_base"] = COMMON_TRUSTED + [
-        "Model/Expr*.v: hand-written port of tokens_to_tokens, expression_to_tree (+Expression.__post_init__), "
-        "search_for_output_in_tree, tree_to_operations, optimize_const (expression_eval.py), eval_expr on integer strings "
-        "(command/utils.py) and the lowering (var_operation.py:93-95,265-356); tied to /repo by exact text / exception-class "
-        "equality on the generated statements",
+        "Model/Expr*.v: hand-written port of tokens_to_tokens, expression_to_tree (+Expression.__post_init__, Negation), "
+        "search_for_output_in_tree, tree_to_operations, fold_constants, optimize_const / merge_constants / merge_constant "
+        "(expression_eval.py) and the lowering (var_operation.py), as repaired by fixes/C02-*.patch; tied to /repo by exact "
+        "text / exception-class equality on the generated statements",
         "Model/ExprSpec.v (eval, render): the specification; render is cross-checked against Python's grammar and Coq's eval "
         "against the Python oracle on every run",
-        "outside the model: Python floats in constant folding (model stops with Unmodelled + tag fold_float), {command} operands, "
-        "float literals, `:`/`::`/[...] tokens, the JMC tokenizer (token order is assumed to follow (line, col))",
+        "outside the model: Python floats in constant folding (float literals, negative exponents: model stops with Unmodelled), "
+        "{command} operands, `:`/`::`/[...] tokens, exponents of a variable base above 256, the JMC tokenizer",
+        "C02_partial / C02_optimize_correct assume 32-bit scores in the initial state (int32_state), which Minecraft guarantees",
         "mcvm.py (untrusted Python VM) is used only to search for failing inputs and to classify known findings",
     ]
     import time
@@ -419,7 +425,7 @@ def main(tier: str) -> int:
     ck.cov.update(dict(
         evaluations=len(cases), distinct_nontrivial=distinct,
         rule="a case is one statement `target :<form>= expr;` compiled alone; streams: exhaustive depth<=1 over 9 leaves x 6 operators x 6 forms "
-             f"({n_exh}), unary/parenthesised variants, sampled depth-2, flat chains, random trees to depth 5, boundary literals; "
+             f"({n_exh}), unary/parenthesised variants, sampled depth-2, flat chains, random trees to depth 5, variable-only trees to depth 6, boundary literals; "
              "distinct = distinct (target, form, expression, names) with at least one operator",
         samples=[dict(statement=c["stmt"], emitted=c["real"]) for c in (cases[100:102] + cases[-3:])],
         programs=len(cases), disagreements_checked=len(mism),
